@@ -1181,3 +1181,244 @@ Proof.
   intros V1 M1 V2 M2 R. apply expected_tokens_inj.
   rewrite <- (conforms ps V1 M1), <- (conforms qs V2 M2), R. reflexivity.
 Qed.
+
+(** * Semantics of the generated Unicode range tables *)
+Lemma in_ranges_spec rs c : in_ranges rs c = true <-> exists lo hi, In (lo, hi) rs /\ lo <= c /\ c <= hi.
+Proof.
+  induction rs as [|[lo hi] rs IH]; cbn [in_ranges].
+  - split; [discriminate|intros (lo & hi & [] & _)].
+  - rewrite orb_true_iff, andb_true_iff, N.leb_le, N.leb_le, IH. split.
+    + intros [[A B]|(lo' & hi' & I & A & B)]; [exists lo, hi|exists lo', hi']; cbn; auto.
+    + intros (lo' & hi' & [E|I] & A & B); [inversion E; subst; left; auto|right; eauto].
+Qed.
+
+(** * The side condition is necessary: the lexer never ends a token where [follow_ok] fails.
+    Exceptions ([conservative]): a signed decimal / hex / binary integer directly followed by a letter
+    or '_' that is no digit of its base (the lexer splits there, as llvm-tblgen does; the reference is
+    ambiguous), '#' and the directives (the side condition is deliberately coarser there). *)
+
+Lemma eat_while_stop (p : N -> bool) s a b : eat_while p s = (a, b) -> hdp p b = false.
+Proof.
+  revert a b. induction s as [|c s IH]; intros a b H; cbn [eat_while] in H.
+  - inversion H. reflexivity.
+  - destruct (p c) eqn:P.
+    + destruct (eat_while p s) as [a' b'] eqn:E. inversion H; subst. apply (IH a' b). reflexivity.
+    + inversion H; subst. cbn [hdp]. exact P.
+Qed.
+
+Lemma eat_while_all (p : N -> bool) s a b : eat_while p s = (a, b) -> forallb p a = true.
+Proof.
+  revert a b. induction s as [|c s IH]; intros a b H; cbn [eat_while] in H.
+  - inversion H. reflexivity.
+  - destruct (p c) eqn:P.
+    + destruct (eat_while p s) as [a' b'] eqn:E. inversion H; subst. cbn [forallb]. rewrite P. apply (IH a' b). reflexivity.
+    + inversion H; subst. reflexivity.
+Qed.
+
+Definition free_kind (k : TokenKind) : bool :=
+  negb (wordlike k) && negb (kind_in bangs k) && negb (kind_in directives k)
+  && match k with
+     | T_Plus | T_Minus | T_Dot | T_LSquare | T_Paste | T_Whitespace | T_LineComment => false
+     | _ => true
+     end.
+
+Lemma free_kind_follow k r : free_kind k = true -> follow_ok k r = true.
+Proof.
+  unfold free_kind, follow_ok. intros H.
+  repeat (apply andb_true_iff in H; destruct H as [H ?]).
+  repeat match goal with X : negb _ = true |- _ => apply negb_true_iff in X; rewrite X end.
+  destruct k; try discriminate; reflexivity.
+Qed.
+
+(** kinds of the generated tables, seen from the specification *)
+Lemma keyword_table_wordlike : forallb (fun kv => wordlike (snd kv)) keyword_table = true.
+Proof. vm_compute. reflexivity. Qed.
+Lemma bangop_table_bang :
+  forallb (fun kv => negb (wordlike (snd kv)) && kind_in bangs (snd kv)) bangop_table = true.
+Proof. vm_compute. reflexivity. Qed.
+Lemma directive_table_directive : forallb (fun kv => kind_in directives (snd kv)) directive_table = true.
+Proof. vm_compute. reflexivity. Qed.
+Lemma punct_table_free :
+  forallb (fun ck => (fst ck =? 91) || (fst ck =? 46) || free_kind (snd ck)) punct_table = true.
+Proof. vm_compute. reflexivity. Qed.
+Lemma punct_table_lsquare : lookup1 punct_table 91 = Some T_LSquare.
+Proof. vm_compute. reflexivity. Qed.
+
+Lemma lookup1_in {A} (tbl : list (N * A)) key v : lookup1 tbl key = Some v -> In (key, v) tbl.
+Proof.
+  induction tbl as [|[k' v'] tbl IH]; cbn [lookup1]; [discriminate|].
+  destruct (k' =? key) eqn:E.
+  - intros H. inversion H; subst. apply N.eqb_eq in E. subst. left. reflexivity.
+  - intros H. right. apply IH. exact H.
+Qed.
+
+Lemma word_result_follow (tbl_k : option TokenKind) a rest' (s : text) :
+  eat_while is_identifier_continue s = (a, rest') ->
+  forall k, (match tbl_k with Some k0 => k0 | None => T_Id end) = k ->
+  (forall k0, tbl_k = Some k0 -> wordlike k0 = true) -> follow_ok k rest' = true.
+Proof.
+  intros E k K W. assert (WK : wordlike k = true).
+  { destruct tbl_k as [k0|]; subst k; [apply W; reflexivity|reflexivity]. }
+  rewrite (follow_wordlike k rest' WK). apply negb_true_iff.
+  rewrite <- (hdp_ext _ _ rest' cls_idchar). exact (eat_while_stop _ _ _ _ E).
+Qed.
+
+Lemma keyword_lookup_wordlike key k0 : lookup keyword_table key = Some k0 -> wordlike k0 = true.
+Proof. intros L. exact (lookup_forallb wordlike _ _ _ keyword_table_wordlike L). Qed.
+
+Lemma string_body_kind s : forall esc k a b, string_body esc s = (k, None, a, b) -> k = T_StrVal.
+Proof.
+  induction s as [|c r IH]; intros esc k a b H; [discriminate|].
+  rewrite string_body_cons in H.
+  destruct ((c =? 92) && negb esc).
+  - destruct (string_body true r) as [[[k1 e1] a1] b1] eqn:E. inversion H; subst. eapply IH. exact E.
+  - destruct ((c =? 34) && negb esc); [inversion H; reflexivity|].
+    destruct ((c =? 13) || (c =? 10)); [discriminate|].
+    destruct (string_body false r) as [[[k1 e1] a1] b1] eqn:E. inversion H; subst. eapply IH. exact E.
+Qed.
+
+Lemma number_follow c s k a rest : ((is_ascii_digit c) || (c =? 45) || (c =? 43)) = true ->
+  number c s = (k, None, a, rest) -> conservative k (c :: a) = false -> follow_ok k rest = true.
+Proof.
+  intros C H NC. rewrite number_eq in H. cbv zeta in H. rewrite peek_digit_hdp in H.
+  destruct (negb (hdp digit s) && (c =? 43)) eqn:P.
+  { inversion H; subst. apply andb_true_iff in P. destruct P as [P _]. exact P. }
+  destruct (negb (hdp digit s) && (c =? 45)) eqn:M.
+  { inversion H; subst. apply andb_true_iff in M. destruct M as [M _]. exact M. }
+  destruct (num_pfx c s) as [[base pfx] s1] eqn:EP.
+  destruct (if base =? 2 then eat_while is_bin_digit s1
+            else if base =? 10 then eat_while is_ascii_digit s1 else eat_while is_ascii_hexdigit s1)
+    as [ds rest0] eqn:ED.
+  destruct ((base =? 10) && _ && _) eqn:EI.
+  { destruct (eat_while is_identifier_continue rest0) as [a' rest'] eqn:EA.
+    destruct (lookup keyword_table (c :: ds ++ a')) as [k0|] eqn:L; inversion H; subst.
+    - eapply (word_result_follow (Some k) _ _ _ EA); [reflexivity|]. intros k0 E0. inversion E0; subst.
+      eapply keyword_lookup_wordlike; exact L.
+    - eapply (word_result_follow None _ _ _ EA); [reflexivity|discriminate]. }
+  destruct (negb (base =? 10) && _) eqn:EF.
+  { destruct (eat_while is_identifier_continue rest0) as [a' rest'] eqn:EA.
+    destruct (lookup keyword_table (c :: pfx ++ a')) as [k0|] eqn:L; inversion H; subst.
+    - eapply (word_result_follow (Some k) _ _ _ EA); [reflexivity|]. intros k0 E0. inversion E0; subst.
+      eapply keyword_lookup_wordlike; exact L.
+    - eapply (word_result_follow None _ _ _ EA); [reflexivity|discriminate]. }
+  destruct (interpret_ok _ _ _); [|discriminate]. inversion H; subst k a rest. clear H.
+  (* numeric literal: outside [conservative] it is an unsigned decimal *)
+  unfold conservative in NC. apply orb_false_iff in NC. destruct NC as [NC _].
+  apply orb_false_iff in NC. destruct NC as [NC _].
+  assert (KI : (tk_eqb (if base =? 2 then T_BinaryIntVal else T_IntVal) T_IntVal
+                || tk_eqb (if base =? 2 then T_BinaryIntVal else T_IntVal) T_BinaryIntVal) = true)
+    by (destruct (base =? 2); reflexivity).
+  rewrite KI in NC. cbn [andb] in NC. apply negb_false_iff in NC.
+  cbn [forallb] in NC. apply andb_true_iff in NC. destruct NC as [DC DA].
+  rewrite forallb_app in DA. apply andb_true_iff in DA. destruct DA as [DP DD].
+  (* c is a digit, so no sign; the prefix consists of digits, so it is empty: base 10 *)
+  assert (B10 : base = 10 /\ pfx = [] /\ s1 = s).
+  { unfold num_pfx in EP. destruct (c =? 48).
+    - destruct (hd_eqb 98 s); [inversion EP; subst; discriminate DP|].
+      destruct (hd_eqb 120 s); [inversion EP; subst; discriminate DP|]. inversion EP; auto.
+    - inversion EP; auto. }
+  destruct B10 as (-> & -> & ->). change (10 =? 2) with false in *. change (10 =? 10) with true in *.
+  cbv beta iota in ED. cbn [andb negb] in EI.
+  assert (SG : ((if c =? 43 then 1 else if c =? 45 then 2 else 0) =? 0) = true).
+  { destruct (digit_not_sign c DC) as [-> ->]. reflexivity. }
+  rewrite SG in EI. cbn [andb] in EI. rewrite ident_start_hdp in EI.
+  change (follow_ok T_IntVal rest0) with (negb (hdp idchar rest0)). apply negb_true_iff.
+  pose proof (eat_while_stop _ _ _ _ ED) as ND.
+  destruct rest0 as [|d r0]; [reflexivity|]. cbn [hdp] in *. unfold idchar. rewrite EI.
+  change (is_ascii_digit d) with (digit d) in ND. rewrite ND. reflexivity.
+Qed.
+
+Theorem follow_necessary s k a rest :
+  lex_one s = (k, None, a, rest) -> conservative k a = false -> follow_ok k rest = true.
+Proof.
+  intros H NC. destruct s as [|c r]; [inversion H; reflexivity|]. rewrite lex_one_eq in H.
+  destruct (is_whitespace c).
+  { destruct (eat_while is_ascii_whitespace r) as [a' rest'] eqn:E. inversion H; subst.
+    change (follow_ok T_Whitespace rest) with (negb (hdp wschar rest)). apply negb_true_iff.
+    exact (eat_while_stop _ _ _ _ E). }
+  destruct ((c =? 47) && hd_eqb 47 r).
+  { unfold eat_until in H. destruct (eat_while (fun c0 => negb (is_newline c0)) (tl r)) as [a' rest'] eqn:E.
+    inversion H; subst. change (follow_ok T_LineComment rest) with (is_nil rest || hdp newline rest).
+    pose proof (eat_while_stop _ _ _ _ E) as S. destruct rest as [|d r0]; [reflexivity|].
+    cbn [hdp is_nil orb] in *. apply negb_false_iff in S. rewrite cls_newline in S. exact S. }
+  destruct ((c =? 47) && hd_eqb 42 r).
+  { destruct (block_comment 0 (tl r)) as [a' rest']. inversion H; subst. reflexivity. }
+  assert (NUM : ((is_ascii_digit c) || (c =? 45) || (c =? 43)) = true ->
+                cons_lexeme c (number c r) = (k, None, a, rest) -> follow_ok k rest = true).
+  { intros C H'. destruct (number c r) as [[[k1 e1] a1] b1] eqn:E. cbn [cons_lexeme] in H'.
+    inversion H'; subst. eapply number_follow; [exact C|exact E|exact NC]. }
+  destruct (is_ascii_digit c) eqn:D; [apply NUM; [reflexivity|exact H]|].
+  destruct (c =? 45) eqn:M; [apply NUM; [reflexivity|exact H]|].
+  destruct (c =? 43) eqn:P; [apply NUM; [reflexivity|exact H]|]. clear NUM.
+  destruct (is_identifier_start c).
+  { unfold identifier in H. destruct (eat_while is_identifier_continue r) as [a' rest'] eqn:E.
+    destruct (lookup keyword_table (c :: a')) as [k0|] eqn:L; cbn [cons_lexeme tok] in H; inversion H; subst.
+    - eapply (word_result_follow (Some k) _ _ _ E); [reflexivity|]. intros k0 E0. inversion E0; subst.
+      eapply keyword_lookup_wordlike; exact L.
+    - eapply (word_result_follow None _ _ _ E); [reflexivity|discriminate]. }
+  destruct (c =? 34).
+  { destruct (string_body false r) as [[[k1 e1] a1] b1] eqn:E. cbn [cons_lexeme] in H. inversion H; subst.
+    rewrite (string_body_kind _ _ _ _ _ E). reflexivity. }
+  destruct (c =? 36).
+  { unfold var_name in H. destruct r as [|d r0]; [discriminate|].
+    destruct (is_identifier_start d); [|discriminate].
+    destruct (eat_while is_identifier_continue r0) as [a' rest'] eqn:E. cbn [cons_lexeme tok] in H. inversion H; subst.
+    change (follow_ok T_VarName rest) with (negb (hdp idchar rest)). apply negb_true_iff.
+    rewrite <- (hdp_ext _ _ rest cls_idchar). exact (eat_while_stop _ _ _ _ E). }
+  destruct ((c =? 91) && hd_eqb 123 r) eqn:CF.
+  { rewrite code_fragment_eq in H. destruct (eat_until2 125 93 (tl r)) as [a' rest'].
+    destruct (hd_eqb 125 rest' && hd_eqb 93 (tl rest')); [|discriminate]. inversion H; subst. reflexivity. }
+  destruct (c =? 33).
+  { unfold bangoperator in H. destruct (eat_while is_ascii_alphabetic r) as [a' rest'] eqn:E.
+    destruct (lookup bangop_table a') as [k0|] eqn:L; [|discriminate]. cbn [cons_lexeme tok] in H. inversion H; subst.
+    pose proof (lookup_forallb (fun k1 => negb (wordlike k1) && kind_in bangs k1) _ _ _ bangop_table_bang L) as B. cbv beta in B. apply andb_true_iff in B. destruct B as [NW KB].
+    apply negb_true_iff in NW. unfold follow_ok. rewrite NW, KB. apply negb_true_iff.
+    rewrite <- (hdp_ext _ _ rest cls_letter). exact (eat_while_stop _ _ _ _ E). }
+  destruct (c =? 35).
+  { exfalso. unfold preprocessor in H. destruct (eat_while is_alphabetic r) as [a' rest'].
+    unfold conservative in NC. apply orb_false_iff in NC. destruct NC as [NC ND]. apply orb_false_iff in NC. destruct NC as [_ NP].
+    destruct (lookup directive_table a') as [k0|] eqn:L; cbn [cons_lexeme tok] in H; inversion H; subst.
+    - rewrite (lookup_forallb (fun k1 => kind_in directives k1) _ _ _ directive_table_directive L) in ND. discriminate.
+    - discriminate NP. }
+  destruct (c =? 46) eqn:DOT.
+  { destruct (hd_eqb 46 r) eqn:D2.
+    - destruct (hd_eqb 46 (tl r)); [inversion H; subst; reflexivity|discriminate].
+    - inversion H; subst. change (follow_ok T_Dot rest) with (negb (hdp (N.eqb 46) rest)).
+      rewrite <- hd_eqb_hdp, D2. reflexivity. }
+  destruct (lookup1 punct_table c) as [k0|] eqn:L; [|discriminate]. inversion H; subst.
+  pose proof (lookup1_in _ _ _ L) as IL. pose proof punct_table_free as F. rewrite forallb_forall in F. specialize (F _ IL). cbn [fst snd] in F.
+  rewrite DOT, orb_false_r in F. destruct (c =? 91) eqn:LS.
+  - apply N.eqb_eq in LS. subst c. rewrite punct_table_lsquare in L. inversion L; subst.
+    change (follow_ok T_LSquare rest) with (negb (hdp (N.eqb 123) rest)).
+    cbn [andb] in CF. rewrite <- hd_eqb_hdp, CF. reflexivity.
+  - cbn [orb] in F. apply free_kind_follow. exact F.
+Qed.
+
+
+Lemma expected_tokens_cons p ps : @expected_tokens lex_err (p :: ps) = (pk p, None, pw p) :: expected_tokens ps.
+Proof. reflexivity. Qed.
+
+Lemma expected_tokens_not_nil ps : @expected_tokens lex_err ps <> [].
+Proof. unfold expected_tokens. destruct ps; discriminate. Qed.
+
+Theorem side_condition_necessary ps :
+  no_conservative ps = true -> lex_text (render ps) = expected_tokens ps -> not_merged ps = true.
+Proof.
+  induction ps as [|p ps IH]; intros NC H; [reflexivity|].
+  cbn [no_conservative] in NC. apply andb_true_iff in NC. destruct NC as [NCp NC]. apply negb_true_iff in NCp.
+  pose proof (lex_text_lexes (render (p :: ps))) as LX. rewrite H, expected_tokens_cons in LX.
+  change (render (p :: ps)) with (pw p ++ render ps) in LX.
+  inversion LX as [E1 E2|s k e a r l NE L1 LR E1 E2]; subst.
+  - exfalso. exact (expected_tokens_not_nil ps (eq_sym H1)).
+  - pose proof (lex_one_split _ _ _ _ _ L1) as SP. apply app_inv_head in SP. subst r.
+    cbn [not_merged]. rewrite (follow_necessary _ _ _ _ L1 NCp). cbn [andb].
+    apply IH; [exact NC|]. apply lexes_lex_text. exact LR.
+Qed.
+
+(** for piece lists without the coarse cases the side condition is exact *)
+Theorem side_condition_exact ps :
+  forallb valid_piece_d ps = true -> no_conservative ps = true ->
+  (lex_text (render ps) = expected_tokens ps <-> not_merged ps = true).
+Proof.
+  intros V NC. split; [apply side_condition_necessary; exact NC|apply conforms; exact V].
+Qed.
